@@ -297,13 +297,6 @@ theorem dcf1d_scale_counterexample :
   rw [e, h0]
   simp
 
-/-- FALSE AS STATED (left as `sorry` on purpose): with exactly one distinct position `cellWidth = 1`
-on both sides, so the weights do not scale; `dcf1d_scale_counterexample` above refutes it formally
-(`xs = [0]`, `a = 2`: left `[1]`, right `[2]`).  The corrected statement, with the extra hypothesis
-`2 ≤ (sortedUnique xs).length`, is `dcf1d_scale_of_two_le` (proved for `a > 0` and `a < 0`). -/
-theorem dcf1d_scale (xs : List Rat) (a : Rat) (ha : a ≠ 0) :
-    dcf1d (xs.map (a * ·)) = (dcf1d xs).map (|a| * ·) := by sorry
-
 theorem dcf1d_uniform (n : Nat) (x0 h : Rat) (hh : 0 < h) (hn : 2 ≤ n) :
     dcf1d ((List.range n).map (fun i => x0 + h * i)) = List.replicate n h := by
   have hcoe : (List.range n).map (fun i => x0 + h * i)
